@@ -28,6 +28,7 @@ SMALL = {
     'names': '(declare-const ab Int)\n(assert (> ab 1))\n',
     'let': '(declare-const a Int)\n(assert (let ((b a)) (> b 0)))\n',
     'fun': '(define-fun f ((a Int)) Int a)\n(assert (> (f 1) 0))\n',
+    'fp-nan': '(assert (fp.isNaN (fp (_ bv0 1) (_ bv31 5) (_ bv1 10))))\n',
     'self-eq': '(declare-const x Int)\n(assert (= x (+ (* x 2) 1)))\n',
     'self-eq2': '(declare-const y Int)\n(declare-const x Int)\n'
                 '(assert (= y (f (g y)) x))\n',
